@@ -2,7 +2,7 @@
 
     Statements only; proofs in [Farm/Rewards.v] (on top of the invariant of [Farm/Proofs.v]).
     [reachable s] as in C05: any history from any genesis with an empty farm account. *)
-From Irismod Require Import Farm.Model Farm.Check Farm.Proofs Farm.Rewards Farm.Refund Farm.Budget Farm.Sound Farm.History Farm.Sound6 Farm.ProRata.
+From Irismod Require Import Farm.Model Farm.Check Farm.Proofs Farm.Rewards Farm.Refund Farm.Budget Farm.Sound Farm.History Farm.Sound6 Farm.ProRata Farm.SoundTrace.
 
 (** RELEASE.  Every successful updatePool (each of stake, unstake, harvest, adjust, destroy and the
     end blocker goes through it), at any height, on any pool and ledger: the reward released for a
@@ -211,6 +211,18 @@ Theorem c06_checker_predicate_holds_on_the_model :
     c06_step (height s) (obs_of s oc0 rw0) st (obs_after s st) = 0.
 Proof. intros s st oc0 rw0 R. exact (model_passes_c06 s st oc0 rw0 (reachable_inv _ R)). Qed.
 Print Assumptions c06_checker_predicate_holds_on_the_model.
+
+(** MODEL PASSES CHECK for C06: on the trace the model itself produces for any history, [check_case_C06] reports no
+    divergence and none of the clauses 10-17; the only other possible answer is clause 18 (the fair-share fold in exact
+    rationals), whose content is proved separately in units of 10^-18 ([payout_close_to_fair_share_on_histories]). *)
+Theorem model_passes_check_C06 :
+  forall (h0 : Z) (bl : list (acct * list Z)) (steps : list step),
+    genesis_ok (ledger_of bl) h0 -> bals_of (ledger_of bl) = bl ->
+    Forall valid_step steps -> Forall actor_step steps ->
+    let c := model_case h0 bl steps [] in
+    check_case_C06 c = (-1, -1, 0) \/ check_case_C06 c = (-1, n_steps c, 18).
+Proof. exact model_passes_check_C06_lemma. Qed.
+Print Assumptions model_passes_check_C06.
 
 (** The duration AdjustPool computes (availableHeight) is never negative (imported by the queues group). *)
 Theorem adjust_duration_is_nonnegative :
